@@ -6,9 +6,9 @@ AMAP = ['_ZN5gdstk3MapIPNS_4CellEE3setEPKcS2_', '_ZNK5gdstk3MapIPNS_4CellEE3getE
 OBLIGATIONS = [
     Ob('replace_and_rename', 'C16/lib.c', [L + '12replace_cellEPNS_4CellES2_', L + '12replace_cellEPNS_4CellEPNS_7RawCellE', L + '11rename_cellEPNS_4CellEPKc'], ir='ni', stubs=['_ZN5gdstk11copy_stringEPKcPm'] + AMAP, rename={'strlen': 'my_strlen1'},
        defines={'ACYCLIC': 0, 'RAWREFS': 0, 'RECURSIVE': 0, 'OI': 0},
-       what='Library::replace_cell (cell->cell, cell->raw cell) and rename_cell: every reference designates the intended cell afterwards (pointer, raw or by name), untouched references are bit-identical, list membership updated',
+       what='Library::replace_cell (cell->cell, cell->raw cell) and rename_cell: every reference designates the intended cell afterwards (pointer, raw or by name), untouched references are bit-identical, list membership updated; replace_cell(cell -> raw cell) for a cell object that is not in the library still redirects the references to it and leaves the lists alone',
        bound='library of 2 cells x 2 references of symbolic kind (pointer to any of 4 cells / by name over 5 letters / raw cell), symbolic names incl. clashes between library and outside cells',
-       variants=[{'OP': o, 'RAWREFS': r, 'OI': k} for o in (0, 4) for r in (0, 1) for k in (0, 1)] + [{'OP': 1}], unwind=8, timeout=300),
+       variants=[{'OP': o, 'RAWREFS': r, 'OI': k} for o in (0, 4) for r in (0, 1) for k in (0, 1)] + [{'OP': 4, 'RAWREFS': r, 'OI': 2} for r in (0, 1)] + [{'OP': 1}], unwind=8, timeout=300),
     Ob('top_level_and_dependencies', 'C16/lib.c', ['_ZNK5gdstk7Library9top_levelERNS_5ArrayIPNS_4CellEEERNS1_IPNS_7RawCellEEE', '_ZNK5gdstk4Cell16get_dependenciesEbRNS_3MapIPS0_EE', '_ZNK5gdstk7RawCell16get_dependenciesEbRNS_3MapIPS0_EE'], ir='ni', stubs=['_ZN5gdstk11copy_stringEPKcPm'] + AMAP, rename={'strlen': 'my_strlen1'},
        defines={'ACYCLIC': 0, 'RAWREFS': 0, 'RECURSIVE': 0, 'OI': 0},
        what='Library::top_level == library cells referenced by no library cell; Cell::get_dependencies == direct / transitive set of referenced cells (Map<Cell*> / Map<RawCell*> by their abstract model, which C20 proves the template against)',
